@@ -184,7 +184,8 @@ class World:
             return orig(r)
         b.rebalance = wrapped
 
-    def reset(self, start):
+    def reset(self, start, rl=0):
+        self.eff_eplen = (rl - 1) if rl else self.cfg["eplen"]
         self.sink.entries.clear()
         self.sinkx.entries.clear()
         self.sink.exec = None
@@ -200,7 +201,10 @@ class World:
             return list(a)[start - 1] if hasattr(a, "__len__") else start - 1
         np.random.choice = choice
         try:
-            out, val = impl.classify(lambda: self.env.reset(fold="f"))
+            if rl:
+                out, val = impl.classify(lambda: self.env.reset(fold="f", episode_length=rl))
+            else:
+                out, val = impl.classify(lambda: self.env.reset(fold="f"))
         finally:
             np.random.choice = orig
         if out == "ok":
@@ -245,14 +249,15 @@ class World:
             return "error", e
 
 
-def soft_ids(cfg, start):
+def soft_ids(cfg, start, eplen=None):
     """events the statement leaves unconstrained (stamped before the warm-up horizon, timestep inside it)"""
     if cfg["warmup"] < 0 or cfg["markov"] or not cfg["fsteps"]:
         return set()
     grid = list(cfg["grid"])
     steps = list(cfg["fsteps"])
-    if cfg["eplen"]:
-        steps = steps[start - 1: start + cfg["eplen"]]
+    eplen = cfg["eplen"] if eplen is None else eplen
+    if eplen:
+        steps = steps[start - 1: start + eplen]
     first = steps[0]                      # 1-based grid index
     origin = grid[first - 1] - cfg["warmup"]
     out = set()
@@ -390,8 +395,8 @@ def compare_call(w, rec, out, val, soft, track_before, pos_before):
                                 t, t.bid_price, t.ask_price, b)))
     else:
         # reset: candidate set of the start draw
-        if cfg["eplen"]:
-            n_valid = max(0, len(cfg["fsteps"]) - cfg["eplen"])
+        if w.eff_eplen:
+            n_valid = max(0, len(cfg["fsteps"]) - w.eff_eplen)
             if w.draw is None or w.draw["n"] != n_valid:
                 fails.append(("starts", "start drawn among %s candidates, %d positions fit the episode" % (
                     None if w.draw is None else w.draw["n"], n_valid)))
@@ -410,9 +415,10 @@ def run_case(cfg, hist, trade, seed=0, owned=None):
     for i, rec in enumerate(hist):
         n += 1
         if rec["call"] == "reset":
+            rl = rec["act"]["id"]
             if rec["out"] == "ok":
-                soft = soft_ids(cfg, rec["start"])
-            out, val = w.reset(rec["start"] or 1)
+                soft = soft_ids(cfg, rec["start"], (rl - 1) if rl else None)
+            out, val = w.reset(rec["start"] or 1, rl)
             tb, pb = 0, None
         else:
             tb = len(w.env.broker.track_record)
